@@ -217,15 +217,19 @@ func (o *kOut) wait(d time.Duration) bool {
 }
 
 var devNull *os.File
+var devNullOnce sync.Once
 
+// nullFile is shared by all runs of a worker, also by concurrent ones: opened exactly once (a second
+// os.File lost to the garbage collector would have its descriptor closed under the feet of whoever
+// took its number).
 func nullFile() *os.File {
-	if devNull == nil {
+	devNullOnce.Do(func() {
 		f, err := os.OpenFile("/dev/null", os.O_RDWR, 0)
 		if err != nil {
 			vcore.Harnessf("open /dev/null: %v", err)
 		}
 		devNull = f
-	}
+	})
 	return devNull
 }
 
